@@ -183,6 +183,7 @@ CHECKS = {
         legs=[
             dict(name="plain", run="^TestPlain$", quick=150, thorough=1500, shards=6),
             dict(name="reject", run="^TestReject$", quick=150, thorough=1500, shards=6),
+            dict(name="locking", run="^TestLocking$", quick=150, thorough=1500, shards=6),
         ],
     ),
     "C10": dict(
